@@ -33,6 +33,8 @@ fn variant_cfg(v: &str, seed: u64) -> Value {
         "F" => json!({"own": {"id": 5, "ptrace": true}, "fwd": true, "ports": [{"p2p": false, "asym": "asym"}, {"p2p": false, "asym": "asym"}], "seed": seed}),
         // as A, the own priority1 and priority2 differ
         "P" => json!({"own": {"id": 5, "p2": 120}, "ports": [{"p2p": false, "asym": "asym"}, {"p2p": false, "asym": "asym"}], "seed": seed}),
+        // slave-only from creation (the run-time setting is in every variant's alphabet; here the instance starts that way)
+        "S" => json!({"own": {"id": 5, "so": true}, "ports": [{"p2p": false, "asym": "asym"}, {"p2p": false, "asym": "asym"}], "seed": seed}),
         "M" => json!({"own": {"id": 5}, "ports": [{"p2p": false, "asym": "asym"}, {"p2p": false, "asym": "asym"}], "seed": seed}),
         "B" => json!({"own": {"id": 5, "ptrace": true}, "ports": [{"p2p": false, "asym": "asym"}, {"p2p": false, "mo": true, "asym": "asym"}], "seed": seed}),
         _ => json!({"own": {"id": 5}, "ports": [{"p2p": false, "aml": [2, 9], "asym": "asym"}, {"p2p": true, "asym": "asym"}, {"p2p": false, "mo": true, "asym": "asym"}], "seed": seed}),
